@@ -6,6 +6,7 @@ import (
 	"errors"
 	"fmt"
 	"io"
+	"os"
 
 	"github.com/hujm2023/go-sms-protocol/codec"
 
@@ -76,6 +77,10 @@ type chunkConn struct {
 	// which io.Reader allows ("a Reader returning a non-zero number of bytes at the end of the input stream may
 	// return either err == EOF or err == nil")
 	errWithData bool
+	// transient: the failure is reported once (a read deadline that fired, EINTR, a proxy hiccup) and the stream
+	// goes on delivering afterwards
+	transient bool
+	fired     bool
 }
 
 func (c *chunkConn) Read(p []byte) (int, error) {
@@ -84,9 +89,20 @@ func (c *chunkConn) Read(p []byte) (int, error) {
 		c.onRead(c.reads)
 	}
 	if c.pos >= c.faultAt {
+		if c.transient && !c.fired {
+			c.fired = true
+			c.faultAt = len(c.stream) + 1 // from now on the stream delivers to its end, then io.EOF
+			return 0, c.fault
+		}
+		if c.transient {
+			return 0, io.EOF
+		}
 		return 0, c.fault
 	}
 	end := c.faultAt
+	if end > len(c.stream) {
+		end = len(c.stream)
+	}
 	for _, k := range c.cuts {
 		if k > c.pos {
 			if k < end {
@@ -98,6 +114,9 @@ func (c *chunkConn) Read(p []byte) (int, error) {
 	n := copy(p, c.stream[c.pos:end])
 	c.pos += n
 	if n == 0 && len(p) > 0 {
+		if c.transient && c.fired {
+			return 0, io.EOF
+		}
 		return 0, c.fault
 	}
 	if c.errWithData && c.pos >= c.faultAt {
@@ -298,6 +317,53 @@ func runBlocking(c *fw.Case, name string, cd codec.Codec, stream []byte, frameEn
 	}
 }
 
+// timeoutErr is what a net.Conn returns when a read deadline fires.
+type timeoutErr struct{}
+
+func (timeoutErr) Error() string   { return "verifmon: i/o timeout (injected)" }
+func (timeoutErr) Timeout() bool   { return true }
+func (timeoutErr) Temporary() bool { return true }
+
+// runBlockingTransient: the connection reports a failure ONCE at faultAt (a deadline that fired mid-frame) and then
+// goes on delivering. Whatever the extractor does with such an error — give up (the property's wording) or carry
+// on — it must never hand out octets that are not exactly the next frame.
+func runBlockingTransient(c *fw.Case, name string, cd codec.Codec, stream []byte, frameEnds []int, cuts []int, faultAt int, fault error) {
+	conn := &chunkConn{stream: stream, cuts: cuts, faultAt: faultAt, fault: fault, transient: true}
+	fail := func(kind, format string, args ...any) {
+		c.Failf("blocking-"+kind+"/"+name, "%s\nstream(%d)=%s\nframe ends=%v chunk ends=%v one-off failure at %d (%v), the stream continues afterwards", fmt.Sprintf(format, args...), len(stream), hx(stream), frameEnds, cuts, faultAt, fault)
+	}
+	cur := 0
+	for k := 0; k <= len(frameEnds)+1 && cur < len(stream); k++ {
+		var frame []byte
+		var err error
+		if p, val, st := fw.Try(func() { frame, err = cd.DecodeBlocked(conn) }); p {
+			fail(fw.PanicSig(val, st), "DecodeBlocked panicked: %v\n%s", val, st)
+			return
+		}
+		c.Evals(1)
+		if len(stream)-cur < 4 {
+			return
+		}
+		L := int(binary.BigEndian.Uint32(stream[cur:]))
+		if L < 4 || cur+L > len(stream) {
+			return
+		}
+		if err != nil {
+			if len(frame) > 0 {
+				fail("frame-with-error", "DecodeBlocked returned %d octets together with error %v", len(frame), err)
+			}
+			c.Cover(fmt.Sprintf("blocking/%s/transient/%T/gave-up", name, fault))
+			return // the caller cannot know how much was consumed: the connection is to be dropped
+		}
+		if !bytes.Equal(frame, stream[cur:cur+L]) {
+			fail("wrong-frame-after-transient-failure", "frame %d: DecodeBlocked returned %d octets %s with a nil error, the stream holds %s there", k, len(frame), hx(frame), hx(stream[cur:cur+L]))
+			return
+		}
+		cur += L
+	}
+	c.Cover(fmt.Sprintf("blocking/%s/transient/%T/carried-on", name, fault))
+}
+
 func concat(frames [][]byte) (stream []byte, ends []int) {
 	for _, f := range frames {
 		stream = append(stream, f...)
@@ -383,6 +449,26 @@ func init() {
 									}
 								}
 								runBlocking(c, name, cd, stream, ends, cuts, at, f, "every-position")
+							}
+						}
+					})
+				},
+			},
+			{
+				Name: "blockingtransient", N: q(3000, 400000), Exhaustive: "a one-off failure (timeout-typed, deadline-exceeded, plain) at every position of each generated stream <= 64 octets, the stream continuing afterwards",
+				Run: func(c *fw.Case) {
+					frames := genFrames(c.R, 4, true)
+					stream, ends := concat(frames)
+					each(func(name string, cd codec.Codec) {
+						for at := 0; at < len(stream); at++ {
+							for _, f := range []error{timeoutErr{}, os.ErrDeadlineExceeded, errInjected} {
+								var cuts []int
+								if c.R.Bool() {
+									for p := c.R.Range(1, 5); p < len(stream); p += c.R.Range(1, 9) {
+										cuts = append(cuts, p)
+									}
+								}
+								runBlockingTransient(c, name, cd, stream, ends, cuts, at, f)
 							}
 						}
 					})
